@@ -727,6 +727,9 @@ fn gen_flat(r: &mut Rng) -> Flat {
     if r.chance(1, 3) { z.add(&Rec { owner: Rel::apex(), rtype: T_A, ttl: 300, rd: Rd::Tok(next(r)) }); }
     let n_owners = r.range(1, 7);
     let mut pool: Vec<Rel> = vec![];
+    // name servers that live below a delegation: later delegations may share them (their glue is then
+    // an address that is itself occluded by the other delegation)
+    let mut ns_below_cut: Vec<Rel> = vec![];
     for _ in 0..n_owners {
         let n = gen_name(r, &pool, 4);
         if z.owns(&n) { continue; }
@@ -738,9 +741,10 @@ fn gen_flat(r: &mut Rng) -> Flat {
                 let ttl = *r.pick(&[300u32, 600]);
                 let k = r.range(1, 2);
                 for _ in 0..k {
-                    let rd = match r.below(4) {
+                    let rd = match if !ns_below_cut.is_empty() && r.chance(1, 3) { 9 } else { r.below(4) } {
+                        9 => Rd::Tgt(r.pick(&ns_below_cut).clone()),    // a name server below another delegation
                         0 => Rd::Tok(next(r)),
-                        1 => Rd::Tgt(n.child("a")),                   // glue below the cut
+                        1 => { ns_below_cut.push(n.child("a")); Rd::Tgt(n.child("a")) }  // glue below the cut
                         2 => Rd::Tgt(n.clone()),                        // glue at the cut itself
                         _ => if pool.len() > 1 && r.chance(1, 2) { Rd::Tgt(r.pick(&pool).clone()) } else { Rd::Tgt(Rel::apex().child("c").child("a")) },
                     };
@@ -947,6 +951,65 @@ fn gen_safe_delta_history(r: &mut Rng, start: &Flat) -> (Vec<Op>, Flat) {
     (ops, cur)
 }
 
+/// One uncommitted version touches the same RRsets more than once: replace-all followed by re-adding
+/// unchanged RRsets, add-then-delete and delete-then-add of one record in one batch, the same for the
+/// write interface (update / remove / update of one RRset within one open).
+fn gen_same_version_history(r: &mut Rng, start: &Flat) -> Vec<Op> {
+    let mut ops = zonefile_ops(start, r);
+    let recs: Vec<Rec> = start.records().into_iter().filter(|x| x.rtype != T_SOA).collect();
+    let mut tok = 9500u32;
+    let ordinary: Vec<Rec> = recs.iter().filter(|x| !x.owner.0.is_empty() && ![T_NS, T_DS, T_CNAME].contains(&x.rtype)).cloned().collect();
+    if r.chance(1, 2) {
+        ops.push(Op::UNew);
+        if r.chance(1, 2) {
+            // AXFR-style replacement by (almost) the same content
+            ops.push(Op::UDelAll);
+            let mut back = recs.clone();
+            for i in (1..back.len()).rev() { let j = r.below(i as u64 + 1) as usize; back.swap(i, j); }
+            if r.chance(1, 2) && !back.is_empty() { back.pop(); }
+            for x in back { ops.push(Op::UAdd(x)); }
+        }
+        for _ in 0..r.range(1, 3) {
+            if !ordinary.is_empty() && r.chance(1, 2) {
+                // delete an existing record and add it back (and possibly delete it again)
+                let x = r.pick(&ordinary).clone();
+                ops.push(Op::UDel(x.clone())); ops.push(Op::UAdd(x.clone()));
+                if r.chance(1, 3) { ops.push(Op::UDel(x)); }
+            } else {
+                // add a new record and delete it again, at a new name or next to existing data
+                let n = if !ordinary.is_empty() && r.chance(1, 2) { r.pick(&ordinary).owner.clone() } else { gen_name(r, &[], 3) };
+                if (start.has(&n, T_NS) && !n.0.is_empty()) || start.has(&n, T_CNAME) { continue; }
+                let x = Rec { owner: n, rtype: T_TXT, ttl: start.m.get(&(r.pick(&[Rel::apex()]).clone(), T_TXT)).map(|e| e.0).unwrap_or(116), rd: Rd::Tok(tok) };
+                tok += 1;
+                let ttl = start.m.get(&(x.owner.clone(), T_TXT)).map(|e| e.0).unwrap_or(116);
+                let x = Rec { ttl, ..x };
+                ops.push(Op::UAdd(x.clone())); ops.push(Op::UDel(x.clone()));
+                if r.chance(1, 3) { ops.push(Op::UAdd(x)); }
+            }
+        }
+        let st = soa_tok(start).unwrap_or(tok);
+        ops.push(Op::UFin(st));
+    } else {
+        ops.push(Op::WOpen);
+        for _ in 0..r.range(1, 3) {
+            let n = if !ordinary.is_empty() && r.chance(2, 3) { r.pick(&ordinary).owner.clone() } else { gen_name(r, &[], 3) };
+            if (start.has(&n, T_NS) && !n.0.is_empty()) || start.has(&n, T_CNAME) { continue; }
+            let rs1 = RrsetD { rtype: T_TXT, ttl: 116, rds: vec![Rd::Tok(tok), Rd::Tok(tok + 1)] };
+            let rs2 = RrsetD { rtype: T_TXT, ttl: 116, rds: vec![Rd::Tok(tok + 2)] };
+            tok += 3;
+            ops.push(Op::WRr(n.clone(), rs1.clone()));
+            match r.below(4) {
+                0 => { ops.push(Op::WRr(n.clone(), rs2)); }
+                1 => { ops.push(Op::WRm(n.clone(), T_TXT)); ops.push(Op::WRr(n.clone(), rs2)); }
+                2 => { ops.push(Op::WRm(n.clone(), T_TXT)); }
+                _ => { ops.push(Op::WRr(n.clone(), RrsetD { rtype: T_TXT, ttl: 1, rds: vec![] })); ops.push(Op::WRr(n.clone(), rs1)); }
+            }
+        }
+        ops.push(Op::WCommit);
+    }
+    ops
+}
+
 /// A write-interface history ending in `target` (only RRset-level calls, so that
 /// the content is well defined).
 fn gen_write_history(r: &mut Rng, start: &Flat, target: &Flat) -> (Vec<Op>, Flat) {
@@ -1000,19 +1063,38 @@ fn gen_tname(r: &mut Rng) -> String {
 
 fn tree_cases(cx: &mut Ctx, r: &mut Rng, n_trees: u64) {
     use domain::zonetree::ZoneTree;
-    for ti in 0..n_trees {
-        let n_ops = r.range(1, 8);
+    // corpus: zone-less intermediate nodes (a deeper zone inserted and removed again), removal of names
+    // that are no zone, re-insertion
+    let i = |n: &str, k: u32| TOp::Ins(n.to_string(), k);
+    let d = |n: &str| TOp::Rem(n.to_string());
+    let corpus: Vec<Vec<TOp>> = vec![
+        vec![i("a.", 1), i("c.b.a.", 2), d("c.b.a.")],
+        vec![i("c.b.a.", 2), d("c.b.a.")],
+        vec![i("c.b.a.", 2), d("c.b.a."), i("b.a.", 3)],
+        vec![i("a.", 1), i("c.b.a.", 2), d("b.a.")],
+        vec![i("a.", 1), i("c.b.a.", 2), d("a.")],
+        vec![i(".", 1), i("b.a.", 2), d("."), i("a.", 3), d("b.a."), d("b.a.")],
+        vec![i("a.", 1), d("a."), i("a.", 2), i("a.", 3)],
+        vec![i("a.a.", 1), i("a.", 2), d("a.a."), d("q.")],
+    ];
+    let n_corpus = corpus.len() as u64;
+    for ti in 0..(n_trees + n_corpus) {
         let mut ops: Vec<TOp> = vec![];
+        if ti < n_corpus { ops = corpus[ti as usize].clone(); } else {
+        let n_ops = r.range(1, 8);
         let mut used: Vec<String> = vec![];
         for k in 0..n_ops {
-            if !used.is_empty() && r.chance(1, 4) && ti % 2 == 1 {
-                let nm = if r.chance(3, 4) { r.pick(&used).clone() } else { gen_tname(r) };
+            if !used.is_empty() && r.chance(1, 3) && ti % 2 == 1 {
+                // mostly a zone that is there, sometimes an ancestor / descendant of one, sometimes anything
+                let nm = match r.below(6) { 0 => gen_tname(r), 1 => { let u = r.pick(&used).clone(); format!("{}.{}", r.pick(&["a", "b"]), u).replace("..", ".") }
+                    2 => { let u = r.pick(&used).clone(); match u.find('.') { Some(ix) if ix + 1 < u.len() => u[ix + 1..].to_string(), _ => u } } _ => r.pick(&used).clone() };
                 ops.push(TOp::Rem(nm));
             } else {
                 let nm = if !used.is_empty() && r.chance(1, 6) { r.pick(&used).clone() } else { gen_tname(r) };
                 used.push(nm.clone());
                 ops.push(TOp::Ins(nm, 100 + k as u32));
             }
+        }
         }
         let ops_s = ops.iter().map(|o| match o { TOp::Ins(n, i) => format!("ti:{}:{}", n, i), TOp::Rem(n) => format!("tr:{}", n) }).collect::<Vec<_>>().join(" ");
         cx.out.begin(&ops_s);
@@ -1030,21 +1112,22 @@ fn tree_cases(cx: &mut Ctx, r: &mut Rng, n_trees: u64) {
                     let res = tree.insert_zone(z);
                     let want_ok = !set.contains_key(&tlabels(n));
                     match &res { Ok(()) => { ids.insert(tname(n).to_string().to_ascii_lowercase(), *id); } Err(_) => errs.push(format!("{}:ZoneExists", i)) }
-                    if !removed_any { cx.verdict(res.is_ok() == want_ok, "zonetree_insert_result", &ops_s, &format!("op {} returned {:?}", i, res.is_ok())); }
+                    { cx.verdict(res.is_ok() == want_ok, "zonetree_insert_result", &ops_s, &format!("op {} returned {:?}", i, res.is_ok())); }
                     if want_ok { set.insert(tlabels(n), *id); }
                 }
                 TOp::Rem(n) => {
                     let res = tree.remove_zone(&tname(n), Class::IN);
                     if res.is_err() { errs.push(format!("{}:ZoneDoesNotExist", i)); }
                     let want_ok = set.remove(&tlabels(n)).is_some();
-                    cx.verdict(res.is_ok() == want_ok || removed_any, "zonetree_remove_zone_not_recursive", &ops_s, &format!("remove op {} returned ok={} expected ok={}", i, res.is_ok(), want_ok));
+                    cx.verdict(res.is_ok() == want_ok, "zonetree_remove_zone_not_recursive", &ops_s, &format!("remove op {} returned ok={} expected ok={}", i, res.is_ok(), want_ok));
                     removed_any = true;
                 }
             }
         }
         let es = if errs.is_empty() { "-".to_string() } else { errs.join(",") };
         let idof = |z: Option<&Zone>| -> String { match z { Some(z) => ids.get(&z.apex_name().to_string().to_ascii_lowercase()).map(|i| i.to_string()).unwrap_or_else(|| "?".into()), None => "-".into() } };
-        let class = if removed_any { "zonetree_remove_zone_not_recursive" } else { "zonetree_find_not_closest_zone" };
+        let class = "zonetree_find_not_closest_zone";
+        let removed_any = false && removed_any;
         // every name over the alphabet to depth 3 (+ one deeper) as find / get queries
         let mut qs: Vec<String> = vec![".".into()];
         for a in ["a", "b", "c", "q"] { qs.push(format!("{}.", a)); for b2 in ["a", "b", "c"] { qs.push(format!("{}.{}.", b2, a)); if r.chance(1, 3) { for c2 in ["a", "b", "c", "q"] { qs.push(format!("{}.{}.{}.", c2, b2, a)); } } } }
@@ -1346,6 +1429,16 @@ fn main() {
         let (hops, content) = if i % 3 == 2 { gen_write_history(&mut r, &start, &z) } else { gen_updater_history(&mut r, &start, &z) };
         let rz = if content.wf() { cx.run(&zonefile_ops(&content, &mut r)).map(|b| b.zone) } else { None };
         cx.eval(if i % 3 == 2 { "write_history" } else { "updater_history" }, &hops, Some(&content), &hq, rz.as_ref());
+        // (2b) one version touching the same RRsets several times
+        if i % 2 == 0 {
+            let sops = gen_same_version_history(&mut r, &z);
+            let scontent = replay(&sops).content;
+            if scontent.wf() {
+                let sq = gen_queries(&mut r, &scontent, &z.m.keys().map(|k| k.0.clone()).collect::<Vec<_>>(), n_q / 2);
+                let rz = cx.run(&zonefile_ops(&scontent, &mut r)).map(|b| b.zone);
+                cx.eval("same_version_history", &sops, Some(&scontent), &sq, rz.as_ref());
+            } else { cx.out.count("gen/same_version_not_wf_skipped"); }
+        }
         // (3) safe updates on a zone with delegations
         if i % 2 == 1 {
             let (sops, scontent) = gen_safe_delta_history(&mut r, &z);
